@@ -21,7 +21,7 @@ func vpSplitRef(s string) (host string, port int) {
 		return s, -1
 	}
 	p := s[last+1:]
-	if len(p) == 0 {
+	if len(p) == 0 || len(p) > 5 {
 		return s, -1
 	}
 	v := 0
@@ -97,4 +97,130 @@ func vp_C17_servername_dns() {
 	vpReach("with-port", valid && port >= 0)
 	vpReach("no-port", valid && port < 0 && len(s) >= 3)
 	vpReach("rejected", !valid && len(s) > 0)
+}
+
+func vpIsHex(c byte) bool {
+	return vpIsDigit(c) || (c >= 'a' && c <= 'f') || (c >= 'A' && c <= 'F')
+}
+
+// vpIPv6Groups: s is a possibly empty sequence of groups of 1-4 hex digits separated by single colons, the last of
+// which may be a dotted IPv4 address when v4Tail is allowed (counting as two groups). Returns the group count, -1 if malformed.
+func vpIPv6Groups(s string, v4Tail bool) int {
+	if len(s) == 0 {
+		return 0
+	}
+	groups := 0
+	i := 0
+	for {
+		start := i
+		for i < len(s) && s[i] != ':' {
+			i++
+		}
+		g := s[start:i]
+		isLast := i == len(s)
+		hex := len(g) >= 1 && len(g) <= 4
+		for k := 0; k < len(g); k++ {
+			if !vpIsHex(g[k]) {
+				hex = false
+			}
+		}
+		switch {
+		case hex:
+			groups++
+		case isLast && v4Tail && vpIPv4Ref(g):
+			groups += 2
+		default:
+			return -1
+		}
+		if isLast {
+			return groups
+		}
+		i++ // the colon
+		if i == len(s) {
+			return -1 // trailing single colon
+		}
+	}
+}
+
+// vpIPv6Ref: RFC 4291 text form (no zone): eight groups, or fewer with exactly one "::".
+func vpIPv6Ref(s string) bool {
+	dc := -1
+	for i := 0; i+1 < len(s); i++ {
+		if s[i] == ':' && s[i+1] == ':' {
+			if dc >= 0 {
+				return false // a second "::" (also ":::")
+			}
+			dc = i
+			i++
+		}
+	}
+	if dc < 0 {
+		return vpIPv6Groups(s, true) == 8
+	}
+	l, r := vpIPv6Groups(s[:dc], false), vpIPv6Groups(s[dc+2:], true)
+	if dc+2 < len(s) && s[dc+2] == ':' {
+		return false
+	}
+	return l >= 0 && r >= 0 && l+r <= 7
+}
+
+// vp:check C17 quick configs=ilen:0|1|2|3|4|5 timeout=1500
+// vp:check C17 thorough configs=ilen:0|1|2|3|4|5|6|7 timeout=3000
+// vp_C17_servername_v6: bracketed hosts. "[" + ilen arbitrary bytes + "]", with or without ":8448": accepted exactly
+// when the bytes between the brackets are an IPv6 address (RFC 4291 text form, no zone), reporting host (with
+// brackets) and port.
+func vp_C17_servername_v6() {
+	inner := vpNondetStringN("inner", vpConfigInt("ilen"))
+	for i := 0; i < len(inner); i++ {
+		vpAssume(inner[i] != ']' && inner[i] != '[')
+	}
+	withPort := vpNondetBool("with_port")
+	s := "[" + inner + "]"
+	if withPort {
+		s += ":8448"
+	}
+	host, port, valid := ParseAndValidateServerName(ServerName(s))
+	vpAssert("bracketed-host-accepted-iff-ipv6", valid == vpIPv6Ref(inner))
+	if valid {
+		vpAssert("host", host == "["+inner+"]")
+		vpAssert("port", (withPort && port == 8448) || (!withPort && port == -1))
+	}
+	vpReach("accepted", valid)
+	vpReach("rejected", !valid)
+}
+
+// vp:check C17 both configs=shape:v4-in-brackets|mapped-v4-bare|mapped-v4-in-brackets|long-port|zone K=24 timeout=900
+// vp_C17_servername_templates: forms too long for the byte-by-byte harnesses, with symbolic characters at the places
+// that matter: an IPv4 address in brackets (not an IPv6 address: refused), an IPv4-mapped IPv6 address without
+// brackets (contains colons: neither DNS name nor IPv4 address: refused) and with brackets (accepted iff well formed),
+// a port of six digits (at most five are allowed), an IPv6 literal with a zone suffix (refused).
+func vp_C17_servername_templates() {
+	d := vpNondetStringN("d", 4)
+	quad := d[0:1] + "." + d[1:2] + "." + d[2:3] + "." + d[3:4]
+	digits := vpIsDigit(d[0]) && vpIsDigit(d[1]) && vpIsDigit(d[2]) && vpIsDigit(d[3])
+	var s string
+	want := false
+	switch vpConfig("shape") {
+	case "v4-in-brackets":
+		s = "[" + quad + "]"
+	case "mapped-v4-bare":
+		s = "::ffff:" + quad
+	case "mapped-v4-in-brackets":
+		s, want = "[::ffff:"+quad+"]", digits
+	case "long-port":
+		p := vpNondetStringN("port", 6)
+		s = "a." + d[0:1] + ":" + p
+		// the last colon splits off a port only if what follows is a valid port; otherwise the whole string is the host,
+		// which then contains a colon and is no DNS name
+	default:
+		z := vpNondetStringN("zone", 1)
+		vpAssume(z[0] != ']' && z[0] != '[')
+		s = "[fe80::" + d[0:1] + "%" + z + "]"
+	}
+	_, _, valid := ParseAndValidateServerName(ServerName(s))
+	vpAssert("accepted-iff-grammatical", valid == want)
+	vpReach("rejected", !valid)
+	if vpConfig("shape") == "mapped-v4-in-brackets" {
+		vpReach("accepted", valid)
+	}
 }
